@@ -8,7 +8,10 @@ use crate::error::{
 use crate::mpmc_v2::backoff;
 use crate::RecvErrorTimeout;
 
+#[cfg(not(all(excsn_fibre_verif, excsn_fibre_verif_shuttle)))]
 use std::time::{Duration, Instant};
+#[cfg(all(excsn_fibre_verif, excsn_fibre_verif_shuttle))]
+use {crate::internal::sync::Instant, std::time::Duration};
 
 use crate::internal::sync::{thread, AtomicU8, Ordering};
 
